@@ -159,7 +159,7 @@ def run(ck, w):
     iwf = w.body("index::write::IndexWriter::finish")
     o = ck.ob("C13.3b", "IndexWriter::finish returns hunks_written unchanged")
     okr = False
-    for bb, j, s in rules.agg_sites(iwf, "std::result::Result", "Ok"):
+    for bb, j, s in [x for x in rules.agg_sites(iwf, "std::result::Result", "Ok") if x[2]["pl"]["l"] == 0]:
         orig = flow.origins_x(lib, iwf, s["rv"]["ops"][0])
         if any(x[0] in ("param", "upvar") and "hunks_written" in x[2] for x in orig) and not [x for x in orig if x[0] in ("arith", "const", "call")]:
             okr = True
